@@ -265,7 +265,12 @@ double pauseRemOf(RS& rs, std::chrono::steady_clock::time_point now, bool* known
     return 0;
   }
 }
-inline std::string implKey(Oomd::Oomd& o, const Cfg& cfg, const std::string& modelKey) {
+template <class OomdT>
+inline std::string implKeyT(OomdT& o, const Cfg& cfg, const std::string& modelKey) {
+  if constexpr (!requires { (*o.engine_->rulesets_.begin()).ruleset; }) {
+    (void)cfg;
+    return modelKey;  // engine internals not readable: state conformance degrades to the behavioural oracle
+  } else {
   using namespace std::chrono;
   std::ostringstream out;
   auto now = steady_clock::now();
@@ -304,7 +309,9 @@ inline std::string implKey(Oomd::Oomd& o, const Cfg& cfg, const std::string& mod
   }
   (void)cfg;
   return out.str();
+  }
 }
+inline std::string implKey(Oomd::Oomd& o, const Cfg& cfg, const std::string& modelKey) { return implKeyT(o, cfg, modelKey); }
 
 struct Options {
   std::vector<double> dts = {1, 3};
